@@ -53,6 +53,9 @@ def judge(pid, viols, crashes, spec):
     for v in viols:
         owner = v["formula"].split("_")[0]
         if owner != pid and not any(v["formula"].startswith(p) for p in spec.get("also", [])):
+            if os.environ.get("VERIF_DEBUG") and v["formula"] not in notes:
+                print("DEBUG", v["formula"], v["trace_file"], "trace", v["trace"], "line", v["line"], "k", v.get("k"),
+                      (v.get("scenario") or {}).get("name"))
             notes[v["formula"]] = notes.get(v["formula"], 0) + 1
             continue
         k = kf.get((pid, signature(v)))
